@@ -575,6 +575,19 @@ def tour():
                     hs.append(["reset", "iter 0 %s %s lens=- hints=0:%d items=%s panic=-" % (which, h, up, its), "dropAll"])
                 hs.append(["reset", "iter 0 %s %s lens=- hints=0:* items=%s panic=-" % (which, h, its), "conv 0 shareable", "clone 1 0", "dropAll"])
                 hs.append(["reset", "iter 0 %s %s lens=- hints=%d:%d items=%s panic=-" % (which, h, actual, actual + 3, its), "dropAll"])
+    # NON-FUSED sources (a channel's try_iter, iter::from_fn over a refilled queue): `late=` is what the iterator would
+    # yield if it were polled again after its first None.  The input sequence ends at the first None: nothing of `late`
+    # may be taken, whatever the size hints say.
+    for which in ("hsFromIter", "thinFromIter", "fromIter", "uniqueFromIter"):
+        h = "99:9" if which in ("hsFromIter", "thinFromIter") else "-"
+        for actual in (0, 1, 3, 7, 8, 9):
+            its = ",".join("%d:%d" % (i + 1, i + 1) for i in range(actual)) or "-"
+            late = "70:1,71:2,72:3"
+            hints = ["-", "%d:%d" % (actual, actual)]
+            if which in ("fromIter", "uniqueFromIter"):
+                hints += ["0:*", "0:%d" % (actual + 5), "%d:*" % actual, "%d:%d" % (actual, actual + 1)]
+            for hh in hints:
+                hs.append(["reset", "iter 0 %s %s lens=- hints=%s items=%s panic=- late=%s" % (which, h, hh, its, late), "clone 1 0", "dropAll"])
     # impossible lengths reported by an exact-size iterator (the byte size of the slice overflows / exceeds isize::MAX):
     # refused before anything is allocated or taken from the iterator; the header and the items die with the call
     for N in (2 ** 61 + 2, 2 ** 63 - 1, 2 ** 63, 2 ** 64 - 1):
@@ -857,7 +870,7 @@ def monitor_history(ops, obs, elem_size=8):
                     if (tk == "mut=some") != (own.get(cur, 0) == 1):
                         fails.append((i, ["C03"], "get_mut inside the with_arc_mut callback answered %s while %d owning handle(s) refer to b%d" % (tk[4:], own.get(cur, 0), cur)))
                         break
-        if f[0] == "iter" and len(f) == 8 and elem_size > 0:
+        if f[0] == "iter" and len(f) in (8, 9) and elem_size > 0:
             # C05: "a size computation that overflows is refused with a panic instead of allocating a short block" — whatever
             # length the iterator reports, a block allocated by this constructor call is large enough for that many elements
             try:
@@ -879,7 +892,7 @@ def monitor_history(ops, obs, elem_size=8):
                             fails.append((i, ["C05", "C06", "C07"], "the iterator reported %d elements of %d bytes; the constructor allocated a block of %s bytes for them (short block: the byte size overflowed) instead of refusing" % (n_alloc, elem_size, pp[2])))
             except ValueError:
                 pass
-        if f[0] == "iter" and st.startswith("panic") and len(f) == 8:
+        if f[0] == "iter" and st.startswith("panic") and len(f) in (8, 9):
             # C06: an HONEST iterator (every reported length / size_hint it ever gives is true, next() never panics) must be accepted
             try:
                 n_items = 0 if f[6][len("items="):] == "-" else len(f[6][len("items="):].split(","))
@@ -1446,7 +1459,7 @@ def run_zst_iter_pass(harness_exe_zst, histories):
                 break
             f = ops[k].split()
             nd = sum(1 for e in o["ev"] if e.startswith("drop:"))
-            if f[0] == "iter" and len(f) == 8 and o["status"] != "bad-op":
+            if f[0] == "iter" and len(f) in (8, 9) and o["status"] != "bad-op":
                 its = f[6][len("items="):]
                 given = (0 if its == "-" else len(its.split(","))) + (0 if f[3] == "-" else 1)
                 made += given
